@@ -4,10 +4,11 @@ from .common import bump
 ID = "C03"
 AREA = "c03"
 LEAN_PROPS = "Litep2pVerif.Props.C03"
-THEOREMS = ["msg_roundtrip", "varint_roundtrip", "framing_transparent", "framing_writer_exact",
+THEOREMS = ["msg_roundtrip", "varint_roundtrip", "framing_transparent", "framing_progress", "framing_writer_exact",
             "negotiate_terminates", "negotiate_confluent", "negotiate_agree", "into_inner_safe",
             "webrtc_safe", "webrtc_agree", "fallback_reported_as_main"]
-CONSTS = ["MSS_MAX_PROTOCOLS", "MSS_MAX_LEN_BYTES", "MSS_MAX_FRAME_SIZE_MINUS"]
+CONSTS = ["MSS_MAX_PROTOCOLS", "MSS_MAX_LEN_BYTES", "MSS_MAX_FRAME_SIZE_MINUS", "MSS_MSG_MULTISTREAM_1_0",
+          "MSS_MSG_PROTOCOL_NA", "MSS_MSG_LS", "MSS_PROTO_MULTISTREAM_1_0"]
 _P = "src/multistream_select/protocol.rs"
 _L = "src/multistream_select/length_delimited.rs"
 CONST_TABLE = [
@@ -16,41 +17,70 @@ CONST_TABLE = [
     # MAX_FRAME_SIZE = (1 << (MAX_LEN_BYTES * 8 - MAX_LEN_BYTES)) - 1 : the anchor is the whole formula
     ("MSS_MAX_FRAME_SIZE_MINUS", _L,
      r"const MAX_FRAME_SIZE: u16 = \(1 << \(MAX_LEN_BYTES \* 8 - MAX_LEN_BYTES\)\) - ([^;]+);", 1),
+    # the literal byte strings of the protocol (fifth element: the group is a Rust byte-string literal)
+    ("MSS_MSG_MULTISTREAM_1_0", _P, r'const MSG_MULTISTREAM_1_0: &\[u8\] = b"((?:[^"\\]|\\.)*)";',
+     b"/multistream/1.0.0\n", "bytes"),
+    ("MSS_MSG_PROTOCOL_NA", _P, r'const MSG_PROTOCOL_NA: &\[u8\] = b"((?:[^"\\]|\\.)*)";', b"na\n", "bytes"),
+    ("MSS_MSG_LS", _P, r'const MSG_LS: &\[u8\] = b"((?:[^"\\]|\\.)*)";', b"ls\n", "bytes"),
+    ("MSS_PROTO_MULTISTREAM_1_0", _P,
+     r'const PROTO_MULTISTREAM_1_0: Protocol = Protocol\(Bytes::from_static\(b"((?:[^"\\]|\\.)*)"\)\);',
+     b"/multistream/1.0.0", "bytes"),
 ]
 MANIFEST = {
     "text": "Lean 4 theorems about executable models of the multistream-select code: Message encode/decode round trip "
             "(msg_roundtrip, varint_roundtrip); the LengthDelimited reader returns exactly the frames written and consumes "
-            "exactly their bytes for every chunking and Pending placement, and the writer loses nothing "
-            "(framing_transparent, framing_writer_exact); the composition of DialerSelectFuture (V1 and V1Lazy, incl. "
-            "Negotiated::expecting) and ListenerSelectFuture over two FIFO channels terminates under an explicit measure, is "
-            "confluent, and every maximal execution ends with both sides reporting the dialer's first supported name or "
-            "both failing (negotiate_terminates, negotiate_confluent, negotiate_agree, into_inner_safe); for the message-based "
-            "variant only the safety half is proved (webrtc_agree_partial: the listener accepts only supported names, the "
-            "dialer succeeds only on the name it proposes; first-preference agreement of the pair is covered by the "
-            "correspondence run and the oracle, not by a theorem); fallback names are reported as the main protocol "
-            "(fallback_reported_as_main, model of the four-line mapping only). Tie: the real futures run against each other and against scripted raw peers "
-            "over an in-memory duplex with scripted chunking/Pending, compared byte for byte with the model.",
+            "exactly their bytes for every chunking and Pending placement, returns every frame once the carrier has made as "
+            "many non-Pending deliveries as the frames have bytes (measure: frame bytes in flight), and the writer loses "
+            "nothing (framing_transparent, framing_progress, framing_writer_exact); the composition of DialerSelectFuture (V1 "
+            "and V1Lazy, incl. Negotiated::expecting) and ListenerSelectFuture over two FIFO channels terminates under an "
+            "explicit measure, is confluent, and every maximal execution ends with both sides reporting the dialer's first "
+            "supported name or both failing (negotiate_terminates, negotiate_confluent, negotiate_agree, into_inner_safe); the "
+            "message-based pair WebRtcDialerState::{propose, propose_next_fallback, register_response} / "
+            "webrtc_listener_negotiate ends, for every main name (<= MAX_FRAME_SIZE-23 bytes), fallback list (<= MAX_FRAME_SIZE-3 "
+            "bytes each), listener list and every grouping of the messages into payloads, with Succeeded(p)/Accepted(p) for the "
+            "first supported name in the order main, fallbacks as given, or with failure/never-accepted (webrtc_agree, by "
+            "induction over the fallback list with encode/decode lemmas of the payload format), and for arbitrary malformed "
+            "payloads the listener accepts only supported names and the dialer succeeds only on the name it proposes "
+            "(webrtc_safe); ProtocolSet::new + report_substream_open report a fallback name to its main protocol with "
+            "fallback=Some(name), a main name as itself, anything else as unsupported (fallback_reported_as_main). Tie: the "
+            "real futures run against each other, against scripted raw peers and against the reference implementation "
+            "multistream-select 0.13.0 in either role (both versions) over an in-memory duplex with scripted chunking/Pending; "
+            "the message-based functions and the real ProtocolSet::report_substream_open are driven through the adapter; all "
+            "compared with the model; the literal byte strings (/multistream/1.0.0\\n, na\\n, ls\\n, the header protocol "
+            "name) and the numeric limits are extracted from the Rust sources on every run.",
     "note": "Trusted: Lean kernel; axioms propext/Classical.choice/Quot.sound; the hand-written models and their tie (sampled "
-            "differential runs through adapter src/verif/c03.rs); the byte-level composition in Driver/C03.lean; the "
-            "literal header/na/ls strings are tied by the differential run only.",
-    "technique": "Lean 4 proof (invariant + confluence + measure) + model/implementation correspondence check",
+            "differential runs through adapter src/verif/c03.rs and harness/src/local/c03ref.rs); the byte-level composition "
+            "in Driver/C03.lean; wPair/the adapter's wpair as the rendering of transport/webrtc/connection.rs (that file is "
+            "not compiled without the webrtc feature). A fallback name registered under two protocols is resolved by "
+            "HashMap iteration order in ProtocolSet::new: excluded by hypothesis (and answered bad-op by the adapter).",
+    "technique": "Lean 4 proof (invariant + confluence + measure + induction) + model/implementation correspondence check "
+                 "+ reference-implementation differential run",
     "design_ref": "DESIGN.md §7 C03",
 }
 RULE = ("seeded cases of 1-6 operations: enc/dec of grammar-generated and mutated messages; negotiate (real dialer and listener "
         "futures against each other, V1 and V1Lazy, name lists from a grammar with disjoint/nested/long/duplicate/fallback/"
         "invalid names, random chunk sizes incl. 1-byte chunks and Pending injections on all four stream halves, random poll "
         "order, payloads written right after negotiation); dial/listen against a scripted raw peer (well-formed transcripts with "
-        "trailing application bytes, and mutated/truncated ones); the message-based pair and its functions. A case is "
+        "trailing application bytes, and mutated/truncated ones); refneg (the real dialer resp. listener against the "
+        "listener resp. dialer of multistream-select 0.13.0, same scripting); the message-based pair and its functions "
+        "(names at the exact length bounds); report (real ProtocolSet with 0-4 protocols and 0-3 fallback names each, "
+        "negotiated name main/fallback/foreign/unknown). A case is "
         "non-trivial if a negotiation succeeded or a message decoded; distinct = distinct (ops, observations) by SHA-256")
 TRUSTED_BASE = ["Lean 4.33 kernel", "axioms: propext, Classical.choice, Quot.sound only",
                 "hand-written models Model/Mss/{Message,Framing,Negotiate,WebRtc}.lean tied to the Rust code by this correspondence run",
-                "adapter /repo/src/verif/c03.rs (in-memory duplex, hand-polled futures), harness, verif.py, checks/c03.py",
+                "adapter /repo/src/verif/c03.rs (in-memory duplex, hand-polled futures), harness (local area c03: "
+                "harness/src/local/c03ref.rs with multistream-select 0.13.0 from the cargo registry), verif.py, checks/c03.py",
                 "Driver/C03.lean byte-level composition (machines + specification-level frame parser + test application)",
                 "unsigned-varint 0.8 decode!/encode modelled by hand (tied by dec/wlisten/wresp on malformed bytes)"]
 ASSUMPTIONS = ["the carrier is a reliable FIFO byte stream that accepts or delivers at least one byte when it is not Pending",
                "V1Lazy: application data written before the confirmation does not itself parse as a multistream-select "
                "message (documented pitfall of Version::V1Lazy); such cases are compared with the model but not judged",
-               "names given to the message-based functions are UTF-8 (ProtocolName is a string type)",
+               "names given to the message-based functions, to ProtocolSet and to the reference implementation are UTF-8 "
+               "(ProtocolName is a string type)",
+               "a fallback name belongs to at most one installed protocol and installed main names are distinct "
+               "(ProtocolSet::new collects into hash maps; otherwise iteration order decides)",
+               "framing_progress: the carrier makes at least as many non-Pending deliveries (>= 1 byte each) as the frames "
+               "have bytes, and the reader is polled again after every Pending",
                "a write to a peer that has dropped its end is accepted and discarded (as TCP does before the reset arrives)"]
 KEEP_PREFIX = 0
 
